@@ -1,5 +1,5 @@
 (** Model of signer generation and use (C36):
-      private/trust/signer_gen.go   SignerGen.Generate, bestForKey, filterChains, bestChain, minTime
+      private/trust/signer_gen.go   SignerGen.Generate, bestForKey, filterPublicKey, filterChains, bestChain, minTime
       private/trust/signer.go       Signer.Sign -> validate (expiry check)
       private/trust/verifier.go     Verifier.Verify (bound ISD-AS, NotifyTRC, GetChains, signature check)
     on top of Model/PKIChain.v (activeTRCs, VerifyChain, the trust DB, GetChains).
@@ -51,9 +51,11 @@ Definition best_chain (t : trc) (now : Z) (chains : list chain) : option chain :
 Definition filter_eku (eku : N) (chains : list chain) : list chain :=
   if eku =? 0 then chains else filter (fun ch => mem eku (as_eku ch)) chains.
 
-(** the candidate chains of a key: DB.Chains(IA, skid, [now, now]) filtered by usage *)
+(** the candidate chains of a key: DB.Chains(IA, skid, [now, now]), restricted to
+    certificates for this very public key (filterPublicKey) and filtered by usage *)
 Definition candidates (d : db) (isd asn : N) (eku : N) (now : Z) (k : key) : list chain :=
-  filter_eku eku (db_chains d (mkq isd asn (k_skid k) true now now)).
+  filter_eku eku (filter (fun ch => as_key ch =? k_h k)
+                         (db_chains d (mkq isd asn (k_skid k) true now now))).
 
 Inductive kres := KErr | KSkip | KGot (s : signer).
 
